@@ -341,7 +341,7 @@ def run_ext_case(ns: dict[str, Any], case: dict, dns: re.Pattern, out: Outcome) 
         for k, c in enumerate(asked[:99]):  # every candidate is the answer of some history: check each as such
             v = monitor({"name": name, "force": force, "answers": [False] * k + [True], "draws": case["draws"]}, c, dns)
             if v is not None:
-                out.violations.append(v)
+                out.violations.append(Violation(v.signature, f"lookup #{k} was about an id that breaks the property if reported free: " + v.what, case))
                 break
         out.count(f"cands:{len(asked)}")
         out.nontrivial(("cands", name.lower(), force, repr(case["draws"][:3])))
@@ -360,7 +360,7 @@ def run_ext_case(ns: dict[str, Any], case: dict, dns: re.Pattern, out: Outcome) 
         if r is not None:
             v = monitor({"name": name, "force": force, "answers": answers, "draws": case["draws"]}, r, dns)
             if v is not None:
-                out.violations.append(v)
+                out.violations.append(Violation(v.signature, v.what, case))
             out.nontrivial(("findo", name.lower(), force, repr(taken), repr(case["draws"][:8])))
         out.count("findo:none" if r is None else f"findo:lookups:{min(len(asked), 8)}{'+' if len(asked) > 8 else ''}")
         if len(set(asked)) < len(asked):
@@ -392,8 +392,7 @@ def run_ext_case(ns: dict[str, Any], case: dict, dns: re.Pattern, out: Outcome) 
         if r is not None:
             v = monitor({"name": name, "force": bool(force), "answers": answers, "draws": case["draws"]}, r, dns)
             if v is not None:
-                v.replay = case  # type: ignore[attr-defined]
-                out.violations.append(v)
+                out.violations.append(Violation(v.signature, v.what, case))
             out.nontrivial(("derive", name.lower(), tuple(answers), repr(case["draws"])))
         out.count("derive:" + ("reserved_name" if name.lower() in reserved else "id_reserved" if r in reserved else "other"))
         return ("|".join(["derive", cps(name.lower()), "".join("1" if a else "0" for a in answers), draws_str(draws)]),
@@ -496,7 +495,8 @@ def run(env: Env) -> Outcome:
         {"kind": "suffix", "id": "x" * 57, "draw": ([0, 0, 0, 0, 0], 0)},
     ] + [{"kind": "derive", "name": nm, "answers": [True], "draws": [([1, 2, 3, 4, 5], 0), ([5, 4, 3, 2, 1], 1)]} for nm in RESERVEDISH]
     for kind, nq, nt in (("cands", 60, 1200), ("findo", 300, 6000), ("suffix", 300, 6000), ("derive", 250, 5000)):
-        ext_cases += [gen_ext_case(env.rng, kind, ns) for _ in range(env.budget(nq, nt))]
+        n_ext = (nq if env.tier == "quick" else nt) if kind == "cands" else env.budget(nq, nt)  # cands: 99 lookups each, not widened
+        ext_cases += [gen_ext_case(env.rng, kind, ns) for _ in range(n_ext)]
     ops3: list[str] = []
     impl3: list[str] = []
     for c in ext_cases:
